@@ -33,6 +33,7 @@ from .sym import (
     mat_eye,
     mat_inv,
     mat_mm,
+    mm,
     mat_rows,
     mat_sub,
     mat_T,
@@ -136,7 +137,7 @@ def install(M):
     def np_matmul(I, args, kw):
         a, b = need_mat(args[0]), need_mat(args[1])
         I.raise_if(to_int(a.cols()) != to_int(b.rows()), "ValueError")
-        return SMat(mat_mm(a.term, b.term), shape=(a.rows(), b.cols()), ident=object())
+        return SMat(mm(a.term, b.term), shape=(a.rows(), b.cols()), ident=object())
 
     def transpose(I, a):
         a = need_mat(a)
